@@ -125,6 +125,10 @@ def run(ctx):
     from .C01 import class_escape_closures
     ctx.rule("RAW-1", "in the bracket-class printer no member is formatted as a raw char outside the class escaper (a raw backslash or bracket makes the pattern invalid)")
     classprinter.raw1(ctx, lib, class_escape_closures(lib))
+    # ESC-3 (shared with C01): an unescaped metacharacter in a nested repetition makes the pattern invalid
+    from .C01 import esc3
+    ctx.rule("ESC-3", "if the grapheme printer is recursive over nested repetitions, escaping descends as deep, on every path")
+    esc3(ctx, lib)
     # PAN-6 capacity of the automaton's index type
     ctx.rule("PAN-6", "every node/edge insertion into the automaton's graph uses an index type of at least 32 bits: petgraph panics when the index space is exhausted, "
                       "and the trie has one state per distinct prefix of the test cases (thousands of test cases exceed 65535)")
